@@ -2,10 +2,10 @@
 from . import common as C
 
 MANIFEST = dict(
-   technique="Lean 4 proof by list induction over executeChecks (loop invariant Inv/Post, generic in value type and in all user callbacks) + differential correspondence of the model and of an independent clause-by-clause judge against real string schemas with logging callbacks",
-   text="Theorems c10_value_threading, c10_issue_order, c10_first_failing, c10_abort_stops, c10_ok_iff_no_fail, c10_runOn_ok_iff, c10_transform_once, c10_pipe(_ok_iff), c10_base_ok_iff/_ok_value hold for every check list, input and environment of callbacks (no bound on length). The model (executeChecks, validatePointer's extra pass, ZodTransform/ZodPipe) is tied to /repo by running real String()/StringPtr() schemas with built-in checks, Trim/ToLowerCase/ToUpperCase/custom overwrites, refinements with/without abort and when, transforms and pipes, with logging callbacks, and comparing verdict, value, issue positions and callback log; the implementation's observation is also judged directly against the property clauses (seenAt/failsAt/abortAt) independently of the model's loop.",
-   note="Trusted: Lean kernel; axioms propext/Classical.choice/Quot.sound at most; Go harness + comparer. strings.TrimSpace/ToLower/ToUpper are modelled on ASCII only (the generator stays in ASCII). Built-in check evaluations are not observable (only user callbacks are logged). The full value-threading/abort statements over the whole callback log are false for pointer inputs with overwrites (extra pass of validatePointer): proved witness c10_first_pass_witness, known finding; the _partial theorems state the exact excluded region.",
-   design="DESIGN.md §5 C10")
+   technique="Lean 4 proof by list induction over executeChecks (loop invariant Inv/Post, generic in value type and in all user callbacks; validatePointer's pointer pass for strings and for containers; typed Transform/Pipe pipelines) + differential correspondence of the model and of an independent clause-by-clause judge against real string, integer, slice and object schemas with logging callbacks + go/ast structure fingerprint of the engine loop",
+   text="Theorems c10_value_threading, c10_issue_order, c10_first_failing, c10_abort_stops, c10_ok_iff_no_fail, c10_runOn_ok_iff, c10_abort_stops_all (abort over the whole callback log, pointer inputs included), c10_container_all / c10_container_ok_iff / c10_container_abort (container schemas, which route every input through validatePointer), c10_transform_once, c10_pipe(_ok_iff), c10_pipeT_ok_iff + c10_base_type_error (the target's type dispatch is part of 'both succeed'), c10_base_ok_iff/_ok_value hold for every check list, input and environment of callbacks (no bound on length). The model (executeChecks, validatePointer as of /repo 49e6e91, ZodTransform/ZodPipe) is tied to /repo by (1) real String()/StringPtr() pipelines, (2) pipelines over String / Int / Slice[int] / Object bases with built-in checks, Refine/RefineAny/Check (multi-issue)/Overwrite, abort and when, Transform/Pipe chains across types incl. nil-returning transforms and ill-typed pipe targets, comparing verdict, value, issue positions and multiplicities, callback log, and judging the implementation's observation clause by clause (seenAt/failsAt/abortAt) independently of the model's loop, (3) the go/ast statement skeleton of executeChecks, CheckAborted, RunChecksOnValue, ApplyChecks, hasOverwriteCheck, validatePointerWithOverwrite, validatePointer, validateWithChecks compared with Model/ChecksShape.lean.",
+   note="Trusted: Lean kernel; axioms propext/Classical.choice/Quot.sound at most; Go harness + comparer; the classification of checks that do nothing on a raw pointer payload (vacU). Built-in check evaluations are not observable (only user callbacks are logged). Value threading over the whole callback log is false for pointer inputs with overwrites (the pointer pass after acceptance calls When guards on the un-overwritten payload): witness c10_first_pass_witness, open finding; c10_value_threading_partial states the excluded region. The defects of the code before 49e6e91 are kept as theorems about legacyRunChecksOn / legacyRunChecksC. Non-string pointer inputs with overwrites are not generated.",
+   design="DESIGN.md §5 C10; notes/C10.md")
 
 MODULES = ["Gozod.Proofs.C10", "Gozod.Proofs.C10C"]
 THEOREMS = ["Gozod.C10." + t for t in [
@@ -51,9 +51,12 @@ def run(res):
         C.tie_broken(res, "correspondence C10/executeChecks", err)
         return res.finish()
     C.decide(res, "C10", data, key, "C10/executeChecks+validatePointer+transform+pipe", describe=describe)
-    res.coverage["rule"] = ("random pipelines: base schemas String()/StringPtr() with 0-8 checks drawn from Min/Max/Length/StartsWith/EndsWith/Includes/"
+    res.coverage["rule"] = ("c10 lines: random pipelines of String()/StringPtr() bases with 0-8 checks drawn from Min/Max/Length/StartsWith/EndsWith/Includes/"
         "Lowercase/Uppercase (constants near the input's length / fragments of the input), Trim/ToLowerCase/ToUpperCase/custom overwrites, "
-        "refinements (35% abort, 35% when-guard), wrapped 0-3 deep in Transform/Pipe; ASCII inputs of length 0-8 incl. leading/trailing spaces, "
-        "passed as string or *string. distinct = distinct op lines.")
-    res.assumptions += ["ASCII-only inputs for Trim/ToLowerCase/ToUpperCase", "callbacks are the harness' fixed deterministic family (theorems quantify over all)"]
+        "refinements (35% abort, 35% when-guard), wrapped 0-3 deep in Transform/Pipe; ASCII inputs of length 0-8 incl. leading/trailing spaces, passed as string or *string. "
+        "c10u lines: bases String / Int / Slice[int](Int()) / Object{a,b} with 0-6 checks (built-ins of the type, Refine/RefineAny with CustomParams, multi-issue Check functions pushing 0-3 issues, custom overwrites), "
+        "0-3 levels of Transform/Pipe with same-type, type-changing and nil-returning transforms, 8% pipe targets of another kind than their input; "
+        "c10shape lines: one per fingerprinted engine function. distinct = distinct op lines.")
+    res.assumptions += ["callbacks are the harness' fixed deterministic family (theorems quantify over all)",
+                        "non-string values are passed as values (no pointer inputs for Int/Slice/Object bases)"]
     return res.finish()
